@@ -83,6 +83,14 @@ theorem dtor_step {p : Pool} (hI : Inv p) (hF : p.failAt = none) {t : Nat} (ht :
 
 /-! ### `fresh`: a result built by allocate + copy -/
 
+theorem ctorThen_ok {o : Nat} {body : M Unit} {p p1 p2 : Pool} (h1 : ctorDefault o p = .ok () p1)
+    (h2 : body p1 = .ok () p2) : ctorThen o body p = .ok () p2 := by
+  simp [ctorThen, h1, h2]
+
+theorem ctorThen_throw {o : Nat} {body : M Unit} {p p1 p2 p3 : Pool} {e : Exc} (h1 : ctorDefault o p = .ok () p1)
+    (h2 : body p1 = .throw e p2) (h3 : dtor o p2 = .ok () p3) : ctorThen o body p = .throw e p3 := by
+  simp [ctorThen, h1, h2, h3]
+
 theorem fresh_spec {p : Pool} (hI : Inv p) (hF : p.failAt = none) {d : Nat} (hd : p.objs d = none) (val : List Nat) :
     ∃ p', fresh d val p = .ok () p' ∧ Succ p p' (· = d) ∧ view p' d = some (val.length, val) ∧ p'.failAt = none := by
   obtain ⟨p1, h1, s1, q1, f1⟩ := step hI hF (.ctorDefault d) hd
@@ -93,7 +101,7 @@ theorem fresh_spec {p : Pool} (hI : Inv p) (hF : p.failAt = none) {d : Nat} (hd 
   obtain ⟨p3, h3, s3, ⟨sz, old, q3a, _, q3c⟩, f3⟩ := step s2.inv f2 (.writeData d 0 val) ⟨b2, hb2, by omega⟩
   refine ⟨p3, ?_, ?_, ?_, f3⟩
   · simp only [Op.run] at h1 h2 h3
-    simp [fresh, h1, h2, h3]
+    exact ctorThen_ok h1 (by simp [h2, h3])
   · exact (s1.trans s2).trans s3
   · rw [q2] at q3a
     obtain ⟨rfl, rfl⟩ : val.length = sz ∧ us = old := by simpa using q3a
@@ -274,14 +282,6 @@ theorem setUtf8_spec {p : Pool} (hI : Inv p) (hF : p.failAt = none) {o : Nat} {b
     refine ⟨p3, ?_, s1.trans s3, q3, f3⟩
     have hw : withTemp tmpA (setBufMove o tmpA m) p1 = .throw .unicodeError p3 := withTemp_throw h2 h3
     simp [setUtf8, h1, hw]
-
-theorem ctorThen_ok {o : Nat} {body : M Unit} {p p1 p2 : Pool} (h1 : ctorDefault o p = .ok () p1)
-    (h2 : body p1 = .ok () p2) : ctorThen o body p = .ok () p2 := by
-  simp [ctorThen, h1, h2]
-
-theorem ctorThen_throw {o : Nat} {body : M Unit} {p p1 p2 p3 : Pool} {e : Exc} (h1 : ctorDefault o p = .ok () p1)
-    (h2 : body p1 = .throw e p2) (h3 : dtor o p2 = .ok () p3) : ctorThen o body p = .throw e p3 := by
-  simp [ctorThen, h1, h2, h3]
 
 /-- `ST::string(const char *, size, validation)` into the dead id `o` -/
 theorem ctorText_spec {p : Pool} (hI : Inv p) (hF : p.failAt = none) {o : Nat}
